@@ -11,6 +11,7 @@ import AquaDrv.C25Ops
 import AquaDrv.C23Ops
 import AquaDrv.C18Ops
 import AquaDrv.C16Ops
+import AquaDrv.C10Ops
 /-! Line-protocol driver of the model: one JSON request per line on stdin, one JSON answer per line. -/
 open Lean Aqua
 
@@ -34,6 +35,7 @@ def dispatch (j : Json) : Json :=
   | "c23_char_class" => C23.opCharClass j
   | "c18_exec" => opC18Exec j
   | "ref" => opRef j
+  | "wf" => opWf j
   | "ping" => Json.mkObj [("pong", true)]
   | op => Json.mkObj [("error", s!"unknown op {op}")]
 
